@@ -622,6 +622,12 @@ Theorem confirm_nonvacuous :
     = Rejected ESignature /\
   wf_obj ex_set /\ u64_small ex_set /\ zlen (go_preimage (st_gid ex_state) ex_set) = 352.
 Proof.
-  repeat split; try (vm_compute; reflexivity); try (vm_compute; congruence);
-    repeat constructor; try (vm_compute; congruence).
+  split; [vm_compute; reflexivity|]. split; [vm_compute; reflexivity|]. split; [vm_compute; reflexivity|].
+  split; [vm_compute; reflexivity|]. split; [vm_compute; reflexivity|]. split; [vm_compute; reflexivity|].
+  split; [|split; [|vm_compute; reflexivity]].
+  - unfold wf_obj, ex_set. cbn [os_nonce os_members]. split; [split; vm_compute; congruence|]. split.
+    + repeat constructor; cbn [fst snd]; vm_compute; congruence.
+    + vm_compute. reflexivity.
+  - unfold u64_small, ex_set. cbn [os_nonce os_members]. split; [vm_compute; reflexivity|].
+    repeat constructor; cbn [snd]; vm_compute; reflexivity.
 Qed.
